@@ -2,6 +2,7 @@ package rules
 
 import (
 	"go/token"
+	"go/types"
 	"strings"
 
 	"gunyucheck/core"
@@ -441,4 +442,60 @@ func (c *senderCtx) flushOffsetSources(s core.Site) ([]ssa.Value, bool) {
 		return nil, false
 	}
 	return vals, true
+}
+
+// fieldTestedFalseBefore: g takes a record (its last parameter, by value); the
+// result is the index of the boolean field that g has tested to be false
+// wherever it calls the method named callee (`if !rec.flag && … { callee() }`).
+// Found only when exactly one field qualifies at every such call.
+func fieldTestedFalseBefore(g *ssa.Function, callee string) (int, bool) {
+	if g == nil || len(g.Params) == 0 {
+		return 0, false
+	}
+	par := g.Params[len(g.Params)-1]
+	if _, isStruct := par.Type().Underlying().(*types.Struct); !isStruct {
+		return 0, false
+	}
+	fieldOfPar := func(v ssa.Value) (int, bool) {
+		switch x := core.Unwrap(v).(type) {
+		case *ssa.Field:
+			if x.X == ssa.Value(par) {
+				return x.Field, true
+			}
+		case *ssa.UnOp:
+			if fa, isFa := x.X.(*ssa.FieldAddr); isFa && x.Op == token.MUL && spillOf(fa.X) == ssa.Value(par) {
+				return fa.Field, true
+			}
+		}
+		return 0, false
+	}
+	idx, have, calls := 0, false, 0
+	for _, s := range core.Sites(g, false) {
+		if s.Method != callee || s.Instr.Parent() != g {
+			continue
+		}
+		calls++
+		var here []int
+		for _, fct := range core.FactsAt(s.Instr.Block()) {
+			v, val := fct.Cond, fct.Val
+			if fct.Res != nil {
+				v = fct.Res
+			}
+			for {
+				u, isNot := core.Unwrap(v).(*ssa.UnOp)
+				if !isNot || u.Op != token.NOT {
+					break
+				}
+				v, val = u.X, !val
+			}
+			if k, isField := fieldOfPar(v); isField && !val {
+				here = append(here, k)
+			}
+		}
+		if len(here) != 1 || (have && here[0] != idx) {
+			return 0, false
+		}
+		idx, have = here[0], true
+	}
+	return idx, have && calls > 0
 }
